@@ -72,6 +72,19 @@ func loadAll(repo string) (*World, *Contracts) {
 		}
 	}
 	w.computeWritesExisting()
+	// functions declared `pure` must write no pre-existing memory according to the write analysis
+	for n, f := range w.Funcs {
+		ct := cs.ByFunc[n]
+		if ct == nil || !ct.Pure || ct.Trusted != "" {
+			continue
+		}
+		for k, wc := range w.WE[f] {
+			if wc.other || len(wc.params) > 0 {
+				fmt.Fprintf(os.Stderr, "gobtvc: contract violated: %s is declared pure but may write existing %s\n", n, k)
+				os.Exit(2)
+			}
+		}
+	}
 	if bad := w.checkPureIfaces(cs); len(bad) > 0 {
 		for _, b := range bad {
 			fmt.Fprintln(os.Stderr, "gobtvc: contract violated:", b)
